@@ -165,6 +165,7 @@ pdgstrf_thread_init(SuperMatrix *A, SuperMatrix *L, SuperMatrix *U,
     /* Prepare arguments to all threads. */
     pdgstrf_threadarg = (pdgstrf_threadarg_t *) 
         SUPERLU_MALLOC(nprocs * sizeof(pdgstrf_threadarg_t));
+    if ( !pdgstrf_threadarg ) SUPERLU_ABORT("Malloc fails for the thread arguments.");
     for (i = 0; i < nprocs; ++i) {
         pdgstrf_threadarg[i].pnum = i;
         pdgstrf_threadarg[i].info = 0;
